@@ -374,6 +374,24 @@ func eitherOr(what, src string, sql string, err error, r *mon.R) bool {
 	return true
 }
 
+// PlantedSources returns n programs with one planted rule violation each (and
+// their valid twins), for checks that judge any call on any input.
+func PlantedSources(seed int64, n int) []string {
+	rng := gen.RNG(seed, "c13-planted")
+	vg := &gen.Valid{Rng: rng}
+	plants := []string{"arity", "arity", "arity", "leftright", "let-column", "let-quoted", "let-qualified", "let-later", "join-kind", "rowcount", "no-query", "two-queries"}
+	var out []string
+	for i := 0; len(out) < n && i < 4*n; i++ {
+		twin := vg.Program()
+		planted, _ := plant(gen.CloneProgram(twin), plants[i%len(plants)], rng)
+		if planted == nil {
+			continue
+		}
+		out = append(out, Print(planted, Layout{Mode: 0}).Src)
+	}
+	return out
+}
+
 // checkHistory: two calls given the same parameter map; the first binds name
 // with let, the second refers to it without binding it.
 func checkHistory(name, value string, size int, r *mon.R) {
